@@ -292,6 +292,12 @@ def make_visit(prog):
                     nv = value + 100
                 elif type(value) is str:
                     nv = value.upper()
+            if act == 'retype':
+                # an equal value of another type (JSON-ification: True -> 1, 1 -> 1.0): same hash, same ==
+                if type(value) is bool:
+                    nv = int(value)
+                elif type(value) is int:
+                    nv = float(value)
             if act == 'wrap' and is_container(value):
                 # rewrite the (already rebuilt) container itself, in a way that is not idempotent
                 nv = ('W', key if not is_container(key) else None, value)
@@ -511,7 +517,7 @@ def gen_prog(r):
                          ['key_is', r.choice(KEYS)], ['type', r.choice(['int', 'str', 'list', 'dict', 'tuple',
                                                                         'NoneType', 'set', 'frozenset', 'bool'])],
                          ['value_eq', r.choice(LEAVES)], ['empty']])
-        act = r.choice(['keep', 'drop', 'drop', 'same', 'rename', 'bump', 'both', 'wrap'] * 3 + ['raise'])
+        act = r.choice(['keep', 'drop', 'drop', 'same', 'rename', 'bump', 'both', 'wrap'] * 3 + ['raise', 'retype', 'retype'])
         rules.append([pred, act])
     return rules
 
